@@ -151,7 +151,7 @@ def main():
             "guard": "cfg(kani)",
             "enable": "no source hooks: every check rsyncs /repo's working tree to a scratch directory, appends `#[cfg(kani)] #[path=..] mod gv_*;` "
                       "child modules (harness/*.rs) to the copies of the real source files and runs cargo kani there; cfg(kani) is only ever set by the Kani compiler",
-            "baseline_off_cmd": "cd /repo && cargo nextest run --workspace --no-fail-fast --tool-config-file pb:/w/lib/nextest.toml --profile pb --test-threads 8 --offline || cargo test --workspace --no-fail-fast --offline",
+            "baseline_off_cmd": "cd /repo && cargo nextest run --workspace --no-fail-fast --tool-config-file pb:/w/lib/nextest.toml --profile pb --test-threads 8 --offline",
             "source_commits": [],
             "add_only": True,
         },
